@@ -418,6 +418,23 @@ func waitPlan(ctx context.Context, ws *coercion.Workstream, id uuid.UUID, d time
 
 var errHang = fmt.Errorf("hang")
 
+// newWS is coercion.New on a store that may hold plans to resume: recovery runs inside New, so a recovery that never
+// comes back is a hang of the resuming process like a Wait that never returns (third result true).
+func newWS(ctx context.Context, reg *registry.Register, store storage.Vault, opts ...coercion.Option) (*coercion.Workstream, error, bool) {
+	type res struct {
+		ws  *coercion.Workstream
+		err error
+	}
+	ch := make(chan res, 1)
+	go func() { w, e := coercion.New(ctx, reg, store, opts...); ch <- res{w, e} }()
+	select {
+	case r := <-ch:
+		return r.ws, r.err, false
+	case <-time.After(5 * time.Second):
+		return nil, nil, true
+	}
+}
+
 // runEngine runs one engine scenario. It returns errHang if a Wait did not return; the
 // caller then ends the process (a hung plan is never left behind in a live process).
 func runEngine(rec *recorder, sc *Scenario) error {
@@ -712,7 +729,12 @@ func crashPoints(ctx context.Context, rec *recorder, sc *Scenario, pr *planRun, 
 		for oid := range pr.nm.m {
 			sp.nm[oid] = p0
 		}
-		ws, err := coercion.New(ctx, reg, sp)
+		ws, err, stuck := newWS(ctx, reg, sp)
+		if stuck {
+			s.emit(0, func() ev { return ev{"ev": "Hang"} })
+			s.close()
+			return errHang
+		}
 		if err != nil {
 			return fmt.Errorf("recover New: %w", err)
 		}
